@@ -7,8 +7,12 @@ catalogue (property statement C14 + DESIGN 4/C14); shares no code with nixio.
 Model
 -----
     file    = {"blocks": [block], "sections": [section]}
-    block   = {"name", "type", "arrays": [array], "tags": [tag], "mtags": [mtag],
+    block   = {"name", "type", "arrays": [array], "frames": [frame], "tags": [tag], "mtags": [mtag],
                "groups": [group], "sources": [source]}
+    frame   = {"name", "type", "cols": [{"name", "dtype": "str"|"float"}], "rows": int,
+               "tail": [bool]  (appended rows: True = continues the ascending values, False = a value
+                                below all others), "units": None | [None|str per column]}
+              (frames are not validated themselves; they provide labels / ticks / units to descriptors)
     array   = {"name", "type", "shape": [int], "data": "ramp"|"rev"|"flat", "unit": None|str,
                "dims": [dim]}
     dim     = {"k": "set", "labels": None|[str]}
@@ -16,6 +20,9 @@ Model
             | {"k": "range", "ticks": [float], "unit": None|str}
             | {"k": "range", "link": <name of a 1-D array of the same block>}   (ticks and unit
                                                          are those of the linked array)
+            | {"k": "range", "flink": {"frame": name, "col": int}}   (ticks = the float column, unit =
+                                                         the unit of that column or none)
+            | {"k": "set", "flink": {"frame": name, "col": int}}     (labels = the column)
     tag     = {"name", "type", "position": [float], "extent": None|[float], "units": None|[str],
                "refs": [array name], "features": [[array name, link type]]}
     mtag    = {"name", "type", "positions": array name, "extents": None|array name,
@@ -156,10 +163,44 @@ def data_vector(arr):
     return [0.0] * n
 
 
+def find_frame(block, name):
+    for fr in block.get("frames", []):
+        if fr["name"] == name:
+            return fr
+    raise KeyError(name)
+
+
+def frame_rows(fr):
+    return fr["rows"] + len(fr.get("tail", []))
+
+
+def column_values(fr, col):
+    """values of a frame column: base rows ascending, appended rows per their flag"""
+    n = fr["rows"]
+    if fr["cols"][col]["dtype"] == "str":
+        return ["r%d" % i for i in range(frame_rows(fr))]
+    vals = [0.25 + 0.5 * i for i in range(n)]
+    for k, ascending in enumerate(fr.get("tail", [])):
+        vals.append(0.25 + 0.5 * (n + k) if ascending else -1.0 - k)
+    return vals
+
+
+def is_linked(dim):
+    return "link" in dim or "flink" in dim
+
+
 def dim_ticks(block, dim):
     if "link" in dim:
         return data_vector(find_array(block, dim["link"]))
+    if "flink" in dim:
+        return column_values(find_frame(block, dim["flink"]["frame"]), dim["flink"]["col"])
     return list(dim["ticks"])
+
+
+def dim_labels(block, dim):
+    if "flink" in dim:
+        return column_values(find_frame(block, dim["flink"]["frame"]), dim["flink"]["col"])
+    return list(dim.get("labels") or [])
 
 
 def dim_unit(block, dim):
@@ -168,6 +209,9 @@ def dim_unit(block, dim):
         return ""
     if "link" in dim:
         return find_array(block, dim["link"])["unit"] or ""
+    if "flink" in dim:
+        fr = find_frame(block, dim["flink"]["frame"])
+        return (fr["units"][dim["flink"]["col"]] or "") if fr.get("units") else ""
     return dim.get("unit") or ""
 
 
@@ -266,7 +310,7 @@ def _array(acc, block, arr):
             if u and not is_atomic_si(u):
                 acc.need("axis-unit", i)
         elif k == "set":
-            labels = dim.get("labels")
+            labels = dim_labels(block, dim)
             if labels and len(labels) != extent:
                 acc.need("labels-count", i)
         else:
@@ -394,6 +438,18 @@ def check_structure(model, allow_empty_arrays=False):
         req(_name_ok(b["name"]) and isinstance(b["type"], str), "block name/type")
         anames = [a["name"] for a in b["arrays"]]
         req(len(set(anames)) == len(anames), "duplicate array")
+        fnames = [fr["name"] for fr in b.get("frames", [])]
+        req(len(set(fnames)) == len(fnames), "duplicate frame")
+        for fr in b.get("frames", []):
+            req(_name_ok(fr["name"]) and isinstance(fr["type"], str) and fr["type"] != "", "frame name/type")
+            cn = [c["name"] for c in fr["cols"]]
+            req(1 <= len(cn) <= 4 and len(set(cn)) == len(cn) and all(_name_ok(x) for x in cn), "columns")
+            req(all(c["dtype"] in ("str", "float") for c in fr["cols"]), "column dtype")
+            req(isinstance(fr["rows"], int) and not isinstance(fr["rows"], bool) and 1 <= fr["rows"] <= 8, "rows")
+            req(all(isinstance(x, bool) for x in fr.get("tail", [])) and len(fr.get("tail", [])) <= 2, "tail")
+            u = fr.get("units")
+            req(u is None or (isinstance(u, list) and len(u) == len(cn) and all(_unit_ok(x) for x in u)),
+                "frame units")
         for a in b["arrays"]:
             req(_name_ok(a["name"]) and isinstance(a["type"], str), "array name/type")
             sh = a["shape"]
@@ -406,7 +462,14 @@ def check_structure(model, allow_empty_arrays=False):
             req(isinstance(a["dims"], list) and len(a["dims"]) <= 5, "dims")
             for d in a["dims"]:
                 k = d["k"]
-                if k == "set":
+                if "flink" in d:
+                    req(k in ("set", "range") and set(d) == {"k", "flink"}, "flink keys")
+                    req(d["flink"]["frame"] in fnames, "flink frame")
+                    fr = find_frame(b, d["flink"]["frame"])
+                    c = d["flink"]["col"]
+                    req(isinstance(c, int) and not isinstance(c, bool) and 0 <= c < len(fr["cols"]), "flink col")
+                    req(fr["cols"][c]["dtype"] == ("str" if k == "set" else "float"), "flink column type")
+                elif k == "set":
                     lab = d.get("labels")
                     req(lab is None or (isinstance(lab, list) and all(isinstance(x, str) for x in lab)),
                         "labels")
@@ -498,6 +561,8 @@ def link_lengths_ok(model):
             for d, n in zip(a["dims"], a["shape"]):
                 if "link" in d and find_array(b, d["link"])["shape"][0] != n:
                     return False
+                if "flink" in d and frame_rows(find_frame(b, d["flink"]["frame"])) != n:
+                    return False
     return True
 
 
@@ -562,7 +627,11 @@ def enumerate_injections(model):
                     out.append(dict(base, kind="dim-add", spec=spec))
             for j, (d, n) in enumerate(zip(a["dims"], a["shape"])):
                 k = d["k"]
-                if k == "range" and "link" not in d:
+                if k == "range" and is_linked(d):
+                    # replacing linked ticks by explicit ones (the descriptor keeps no unit of its own)
+                    out.append(dict(base, kind="ticks", j=j, ticks=_incr(n)))
+                    out.append(dict(base, kind="ticks", j=j, ticks=_incr(n + 1)))
+                if k == "range" and not is_linked(d):
                     if d["ticks"]:
                         out.append(dict(base, kind="ticks", j=j, ticks=[]))
                     out.append(dict(base, kind="ticks", j=j, ticks=_incr(n + 1)))
@@ -580,7 +649,7 @@ def enumerate_injections(model):
                         for fl in ("rev", "flat"):
                             if tgt["data"] != fl:
                                 out.append(dict(base, kind="link-data", j=j, data=fl))
-                if k == "set":
+                if k == "set" and not is_linked(d):
                     for cnt in (n + 1, n - 1):
                         if cnt >= 1:
                             out.append(dict(base, kind="labels", j=j, labels=["L%d" % i for i in range(cnt)]))
@@ -596,6 +665,11 @@ def enumerate_injections(model):
                     for u in cands:
                         if (u or "") != cur:
                             out.append(dict(base, kind="axis-unit", j=j, unit=u))
+        used_frames = {d["flink"]["frame"] for a in b["arrays"] for d in a["dims"] if "flink" in d}
+        for fr in b.get("frames", []):
+            if fr["name"] in used_frames and len(fr.get("tail", [])) < 2:
+                for asc in (True, False):
+                    out.append({"blk": bn, "frame": fr["name"], "kind": "frame-append-row", "ascending": asc})
         for role in ("tags", "mtags"):
             for t in b.get(role, []):
                 base = {"blk": bn, role[:-1]: t["name"]}
@@ -668,6 +742,10 @@ def apply_injection(model, inj):
     if not b:
         raise KeyError(inj["blk"])
     b = b[0]
+    if kind == "frame-append-row":
+        fr = find_frame(b, inj["frame"])
+        fr["tail"] = list(fr.get("tail", [])) + [bool(inj["ascending"])]
+        return m
     if "arr" in inj and kind not in ("add-ref",):
         a = find_array(b, inj["arr"])
         if kind == "dim-drop":
@@ -677,13 +755,18 @@ def apply_injection(model, inj):
         else:
             d = a["dims"][inj["j"]]
             if kind == "ticks":
-                if d["k"] != "range" or "link" in d:
+                if d["k"] != "range":
                     raise ValueError("ticks target")
-                d["ticks"] = list(inj["ticks"])
+                if is_linked(d):
+                    if not inj["ticks"]:
+                        raise ValueError("linked ticks cannot be replaced by nothing")
+                    a["dims"][inj["j"]] = {"k": "range", "ticks": list(inj["ticks"]), "unit": None}
+                else:
+                    d["ticks"] = list(inj["ticks"])
             elif kind == "link-data":
                 find_array(b, d["link"])["data"] = inj["data"]
             elif kind == "labels":
-                if d["k"] != "set":
+                if d["k"] != "set" or is_linked(d):
                     raise ValueError("labels target")
                 d["labels"] = list(inj["labels"])
             elif kind == "interval":
@@ -695,6 +778,11 @@ def apply_injection(model, inj):
                     raise ValueError("unit target")
                 if "link" in d:
                     find_array(b, d["link"])["unit"] = inj["unit"]     # the unit lives in the linked array
+                elif "flink" in d:
+                    fr = find_frame(b, d["flink"]["frame"])            # ... or in the frame's unit list
+                    units = list(fr["units"]) if fr.get("units") else [None] * len(fr["cols"])
+                    units[d["flink"]["col"]] = inj["unit"]
+                    fr["units"] = units
                 else:
                     d["unit"] = inj["unit"]
             else:
